@@ -123,7 +123,8 @@ def run(ctx):
     ctx.trusted = cm.STD_TRUST + [
         "numpy.array_split sizes n//k+[i<n%k] and re.search on metacharacter-free strings are assumptions of the model, validated by the correspondence"]
     ctx.tested_not_proved = ["json.dump/json.load round trip (library)", "__str__/log glue"]
-    proved = cm.prove(ctx)
+    # Props/PyTieScores.vo: the argument checks of get_batch as TRANSLATED from hyruns.py = the model
+    proved = cm.prove(ctx, extractors=["pygen"], extra_targets=["Props/PyTieScores.vo"])
     cm.use_impl()
     from hydrodiy.io import hyruns
     rng = ctx.rng
